@@ -350,6 +350,64 @@ def run_s9(chk):
                          name, have, 'its stack frame' if k == 'frame' else 'the memory reached from %s' % k.split(':')[1], nb))
 
 
+def run_s10(chk, P):
+    """sibling rule across architectures: where one architecture's implementation of a routine scrubs, on every path, the caller's
+    buffer reached from argument i (keystream handed over by the C caller), a sibling that does not leaves that duty to the C
+    caller: the local passed for that argument must then be scrubbed on every path from the call to every return"""
+    s10 = chk.rule('S10', 'a caller-owned buffer that one architecture\'s routine scrubs on every path is scrubbed for every architecture: by '
+                          'the sibling routine itself or, after the call, by the C caller on every path to every return', floor=1)
+    mz = must_zero_bytes()
+    names = {n for _, n, _ in asmfacts.all_functions()}
+    groups = {}
+    for n in names:
+        stem = ARCH_SUFFIX.sub('', n)
+        if stem != n:
+            groups.setdefault(stem, []).append(n)
+    ARGS = ['rdi', 'rsi', 'rdx', 'rcx', 'r8', 'r9']
+    for stem, ms in sorted(groups.items()):
+        if len(ms) < 2:
+            continue
+        fams = {}
+        for m in ms:
+            for k, b in mz.get(m, {}).items():
+                if k.startswith('arg:') and b >= 64 and k[4:] in ARGS[1:]:   # rdi is the manager / job itself
+                    fams.setdefault(k, {})[m] = b
+        for k, have in sorted(fams.items()):
+            ai = ARGS.index(k[4:])
+            for m in sorted(ms):
+                key = '%s:%s' % (m, k)
+                if m in have:
+                    s10.ok(key, {'scrubbed_by_routine': have[m]})
+                    continue
+                # every C call site of the sibling that does not scrub
+                sites = 0
+                bad = None
+                seenf = set()
+                for tu in P.tus():
+                    for f in P.funcs(tu):
+                        if (f.name, f.loc) in seenf:
+                            continue
+                        for b_, i_, ev in f.events(('call',)):
+                            if ev['e'].get('fn') != m or len(ev['e'].get('a', [])) <= ai:
+                                continue
+                            seenf.add((f.name, f.loc))
+                            sites += 1
+                            br = cf.base_ref(ev['e']['a'][ai])
+                            if br is None or br.get('p') or br.get('g'):
+                                continue   # the buffer is the caller's caller's: followed no further
+                            ok, wit = _must_scrub(f, b_, i_ + 1, br['n'], set())
+                            if not ok and bad is None:
+                                bad = (f, ev, br['n'])
+                if bad:
+                    f, ev, loc_name = bad
+                    s10.bad(key, ev.get('sloc') or ev['loc'],
+                            '%s leaves the buffer handed over in %s untouched where its sibling %s overwrites %d bytes of it with zero on every '
+                            'path, and %s does not scrub `%s` after the call on every path to return: the secret material in it survives '
+                            'the job on this architecture' % (m, k[4:], sorted(have)[0], max(have.values()), f.name, loc_name))
+                else:
+                    s10.ok(key, {'call_sites': sites})
+
+
 def run_s8(chk):
     s8 = chk.rule('S8', 'every assembled routine still overwrites with zero at least as many bytes of its own stack frame as on the reference '
                         'tree (clearing of state spilled to the stack; a byte count, so that a changed frame layout is not a finding)', floor=40)
@@ -402,6 +460,7 @@ def run(chk):
     run_s2(chk, P)
     run_s8(chk)
     run_s9(chk)
+    run_s10(chk, P)
     # S4: road block coverage and whole-manager clears (shared)
     inits.rule_reattach(chk, P)
     inits.rule_reset(chk, P, 'S4.')
